@@ -92,6 +92,8 @@ def run_case(case):
     # reduced hash sizes: decoys are generated collision-free under the truncated hash (gen_decoy), arrays whose own
     # blocks collide are trivial (recorded_hashes)
     hs = rng.choice([16, 16, 8, 4, 2]) if idx % 4 != 3 else rng.choice([16, 8, 4, 2, 2])
+    if idx % 8 == 7 and rng.random() < 0.8:
+        hs = 16  # the pending-import-decoy mode mostly runs with full hashes (past hashes are only meaningful there)
     cfg = scen.gen_config(rng, max_lev=2, force=dict(nd=rng.randint(2, 4), hashsize=hs), allow_splits=False)
     opts = ["--test-fake-uuid"] if idx % 2 == 0 else []
     a, fs = scen.make(rng, cfg, "c19")
@@ -105,7 +107,7 @@ def run_case(case):
         r = a.cmd("sync", *opts, variant=variant)
         if r.rc != 0:
             raise scen.CaseError("setup sync failed")
-        mode = ["copy-decoy", "copy-decoy-prehash", "move", "import", "duplicate", "nocopy", "killaftersync"][idx % 7]
+        mode = ["copy-decoy", "copy-decoy-prehash", "move", "import", "duplicate", "nocopy", "killaftersync", "pending-import-decoy"][idx % 8]
         c0 = a.load_content()
         taken = recorded_hashes(a, fs, c0)
         if taken is None:
@@ -202,6 +204,57 @@ def run_case(case):
                 rc_ = a.cmd("check", *opts, variant=variant)
                 if rc_.rc != 0:
                     V.append(("check-fails-after-decoy-sync", "%s: check rc=%s %s" % (label, rc_.rc, rc_.err[-200:].decode("latin-1")), rep))
+        elif mode == "pending-import-decoy":
+            # a recorded-but-never-synced file (its blocks carry the hash of what the parity STILL holds: the file it replaced)
+            # is lost, and a file with its size and time-stamp but the OLD content is offered for import / lies in the array
+            # (a file whose blocks all lie beyond stripe 0, so that a sync limited to the first stripe cannot reach them)
+            n2i_ = {nm_.encode(): i_ for i_, nm_ in enumerate(a.disk_names)}
+            beyond = {(n2i_[c0.disk_name(f.disk)], f.sub) for f in c0.files if f.blocks and min(b[0] for b in f.blocks) >= 1}
+            cands = [(d, s) for (d, s) in originals if len(fs.entries[d][s][1]) > a.bs and (d, s) in beyond]
+            if not cands:
+                raise scen.CaseError("no multi-block original beyond the first stripe")
+            d, s = rng.choice(cands)
+            old = fs.entries[d][s][1]
+            fs.remove(d, s)
+            nm = b"replacer.bin"
+            if not scen._clear_path(fs, d, nm):
+                raise scen.CaseError("name taken")
+            new = gen_decoy(rng, len(old), c0, taken, None)
+            fs.write(d, nm, new)
+            mt = fs.entries[d][nm][2]
+            r = a.cmd("sync", "-E", "-Z", *rng.choice([["-B", "1"], ["-S", "0", "-B", "1"]]), *opts, variant=variant)
+            hist.append(("sync-partial", r.rc))
+            c1 = a.load_content()
+            rec = [f for f in c1.files if f.sub == nm and c1.disk_name(f.disk) == a.disk_names[d].encode()]
+            pending = bool(rec) and any(b[1] != BLK for b in rec[0].blocks)
+            imp = os.path.join(a.root, "import")
+            os.makedirs(imp)
+            where = rng.choice(["import", "array"])
+            if where == "import":
+                dp = os.path.join(os.fsencode(imp), b"offer.bin")
+            else:
+                d2 = rng.choice(a.disks)
+                dp = fs.path(d2, b"offer-in-array.bin")
+            with open(dp, "wb") as f:
+                f.write(old)
+            os.utime(dp, ns=(mt, mt))
+            os.unlink(fs.path(d, nm))
+            args = list(opts) + (["-i", imp] if where == "import" else [])
+            r = a.cmd("fix", *args, variant=variant)
+            hist.append(("fix", args, r.rc))
+            for s_ in r.san:
+                V.append(("sanitizer:" + A.san_key(s_), s_[:2000], rep))
+            label = "%s (%s, pending=%s), fix %s rc=%s" % (mode, where, pending, " ".join(args), r.rc)
+            res["counters"]["pending_decoys_offered"] = res["counters"].get("pending_decoys_offered", 0) + (1 if pending else 0)
+            p = fs.path(d, nm)
+            if os.path.exists(p):
+                with open(p, "rb") as f:
+                    got = f.read()
+                if got != new:
+                    V.append(("fix-used-unverified-data", "%s: %r restored with bytes that are not the recorded version%s" %
+                              (label, nm, " (they are the offered old content)" if got == old else ""), rep))
+            elif r.rc == 0 and not os.path.exists(p + b".unrecoverable"):
+                V.append(("fix-silently-skips-file", "%s: %r neither restored nor reported" % (label, nm), rep))
         elif mode == "move":
             for (d, s) in rng.sample(originals, min(len(originals), rng.randint(1, 4))):
                 if rng.random() < 0.5 or len(a.disks) < 2:
